@@ -48,6 +48,12 @@ func genConn(r *core.Rand, mode string, rules []string) *connCase {
 			// protocol upgrades whose Connection field nominates further names (credential fields, the standard
 			// hop-by-hop set, managed and custom names) with the nominated fields present
 			UpgradeNominate: 12,
+			// a client Authorization of every scheme (the configurations with a credentials table must leave it alone)
+			AuthVariety: 30,
+			// the Connection-field dimension (reqmodel.GenConnShape): absent / a lone keep-alive or close as most
+			// clients send it / other lone options / several options / several lines / empty, crossed with the presence
+			// of each field of the fixed hop-by-hop list
+			ConnShapes: 15,
 		}
 		if mode == "direct-gate" {
 			o.ProxyAuth = gateValue()
@@ -60,6 +66,13 @@ func genConn(r *core.Rand, mode string, rules []string) *connCase {
 		cc.Requests = append(cc.Requests, reqmodel.GenRequest(r, o))
 	}
 	cc.Pipeline = n > 1 && r.Chance(30)
+	// the client address: IPv4 / IPv6 socket, PROXY protocol header announcing IPv4 / IPv6 sources
+	cc.Peer = genPeer(r)
+	// a credentials table (35%): which of the tables is decided by the configuration, so that the number of
+	// proxy instances stays small (every table is met under some mode x rule set)
+	if credsMode(mode) && r.Chance(35) {
+		cc.Creds = credSets[(len(mode)+len(rules)+len(fmt.Sprint(rules)))%len(credSets)]
+	}
 	if r.Chance(50) {
 		k := r.Range(1, 5)
 		for i := 0; i < k; i++ {
@@ -72,6 +85,7 @@ func genConn(r *core.Rand, mode string, rules []string) *connCase {
 type envKey struct {
 	mode  string
 	rules string
+	creds string
 }
 
 type envPool struct {
@@ -81,13 +95,17 @@ type envPool struct {
 }
 
 func (p *envPool) get(mode string, rules []string) (*env, error) {
-	k := envKey{mode, fmt.Sprint(rules)}
+	return p.getCreds(mode, rules, nil)
+}
+
+func (p *envPool) getCreds(mode string, rules []string, creds []reqmodel.Cred) (*env, error) {
+	k := envKey{mode, fmt.Sprint(rules), fmt.Sprint(creds)}
 	p.mu.Lock()
 	defer p.mu.Unlock()
 	if e, ok := p.envs[k]; ok {
 		return e, nil
 	}
-	e, err := newEnv(p.ctx, mode, rules)
+	e, err := newEnvCreds(p.ctx, mode, rules, creds)
 	if err != nil {
 		return nil, err
 	}
@@ -104,10 +122,16 @@ func (p *envPool) closeAll() {
 func Run(ctx *core.Ctx) {
 	ctx.SetRule("keep-alive client connections of 1-4 generated requests (method, origin/absolute form, query escapes, repeated fields, " +
 		"Connection-nominated names, pre-existing Via/X-Forwarded-*, body none/Content-Length/chunked with random chunking and sizes around 4 KiB/32 KiB, " +
-		"arbitrary client write segmentation, 30% pipelined) through the real proxy in direct / upstream-proxy / upstream-proxy-with-credentials / MITM " +
-		"/ proxy-basic-auth / PAC (DIRECT for intercepted https, PROXY for http) configuration with and without header rules; 12% of the requests are protocol upgrades whose Connection field nominates " +
+		"arbitrary client write segmentation, 30% pipelined; 30% with a client Authorization of every scheme: Basic well-formed / undecodable / without colon, " +
+		"Bearer, Digest, Negotiate, NTLM, bare token, empty, 1-3 lines) from clients of every address family (IPv4 socket, IPv6 socket [::1], PROXY protocol v1/v2 headers " +
+		"announcing IPv4 / IPv6 / IPv4-mapped / odd-spelt sources and ports, LOCAL/UNKNOWN; X-Forwarded-For must record that IP address, model given RemoteAddr) " +
+		"through the real proxy in direct / upstream-proxy / upstream-proxy-with-credentials / MITM " +
+		"/ proxy-basic-auth / PAC (DIRECT for intercepted https, PROXY for http) configuration with and without header rules, 35% of the direct / upstream / MITM / basic-auth instances with a --credentials table matching the origin " +
+		"(exact, port wildcard, host wildcard; Authorization judged as an end-to-end field, model = whole-configuration pipeline C06 request); 12% of the requests are protocol upgrades whose Connection field nominates " +
 		"further names (Proxy-Authorization, Authorization, the standard hop-by-hop set, managed and custom names; token lists in every spelling, " +
-		"nominated fields present with several values); before that, sequentially, HISTORY cases: a request or an origin response nominates names " +
+		"nominated fields present with several values); 15% draw the Connection-field dimension (reqmodel.GenConnShape: Connection absent / a lone " +
+		"keep-alive or close as most clients send it / other lone options / empty list elements / several options / several lines / empty value, " +
+		"crossed with the presence of each field of the fixed hop-by-hop list; distribution: connx/ counts); before that, sequentially, HISTORY cases: a request or an origin response nominates names " +
 		"in Connection and later requests on the same connection / other connections / inside intercepted tunnels / through the other listeners of " +
 		"the process carry those names end-to-end (whole history compared with Model.ReqSeq.runProcess); then REFUSAL cases: on one keep-alive connection " +
 		"requests the proxy answers itself (407 no/wrong credentials, 403 deny-domains / localhost, 400 Via loop; direct and inside intercepted tunnels) " +
@@ -173,7 +197,7 @@ func Run(ctx *core.Ctx) {
 		go func() {
 			defer wg.Done()
 			for j := range jobs {
-				e, err := pool.get(j.cc.Mode, j.cc.Rules)
+				e, err := pool.getCreds(j.cc.Mode, j.cc.Rules, j.cc.Creds)
 				if err != nil {
 					ctx.Crash("proxy starts with a valid configuration", "", j.cc, err.Error())
 					continue
@@ -223,11 +247,11 @@ func replayWith(ctx *core.Ctx, pool *envPool, raw json.RawMessage) {
 	case "one":
 		var o oneReq
 		json.Unmarshal(raw, &o)
-		cc = connCase{Kind: "conn", Mode: o.Mode, Rules: o.Rules, Requests: []*reqmodel.Request{o.Request}, Segments: o.Segments}
+		cc = connCase{Kind: "conn", Mode: o.Mode, Rules: o.Rules, Requests: []*reqmodel.Request{o.Request}, Segments: o.Segments, Peer: o.Peer, Creds: o.Creds}
 	default:
 		json.Unmarshal(raw, &cc)
 	}
-	e, err := pool.get(cc.Mode, cc.Rules)
+	e, err := pool.getCreds(cc.Mode, cc.Rules, cc.Creds)
 	if err != nil {
 		ctx.Crash("proxy starts with a valid configuration", "", cc, err.Error())
 		return
